@@ -144,6 +144,7 @@ class LoopSpec:
 
 
 MAX_DEPTH = 6
+VALEQ = z3.Function("value_equal", Ref, Ref, z3.BoolSort())  # `a == b` for two distinct opaque objects (uninterpreted)
 
 
 class Interp:
@@ -521,7 +522,11 @@ class Interp:
         if isinstance(a, StrV) and isinstance(b, StrV):
             return a.t == b.t
         if isinstance(a, RefV) and isinstance(b, RefV):
-            return a.t == b.t
+            if identity:
+                return a.t == b.t
+            # `==` on objects the code does not look into: identical objects are equal, distinct ones MAY compare equal
+            # (e.g. two equal strings); `is` is exact
+            return z3.Or(a.t == b.t, VALEQ(a.t, b.t), VALEQ(b.t, a.t))
         if isinstance(a, ExtV) and isinstance(b, IntV):
             return a.eq_int(b.t)
         if isinstance(a, ExtV) and isinstance(b, ExtV):
